@@ -264,7 +264,7 @@ def rule_r7(chk):
         want = [sym("val[0]"), sym("val[-1]"), sub(sym("pos[-1]"), sym("pos[0]"))]
         labels = ["first value", "last value", "elapsed periods"]
         for lab, g, w in zip(labels, got, want):
-            chk.ob("C12-R7", f"series.arip._get_first_last_observations[{lab}]", alg.equal(g, w), f"{lab} = {alg.show(g)} (want {alg.show(w)})", m.loc(f))
+            chk.ob("C12-R7", f"series.arip._get_first_last_observations[{lab}]", alg.equal(g, w), f"{lab} = {alg.show(g)} (want {alg.show(w)})", m.loc(f), sure=True)
     except (Undecided, KeyError, AttributeError) as ex:
         chk.undecided("C12-R7", "series.arip._get_first_last_observations[values]", f"not normalisable: {ex}", m.loc(f))
     # rho and constant
@@ -285,7 +285,7 @@ def rule_r7(chk):
             got = alg.ToIR().conv(ife[0].value.body)
             ok = alg.equal(got, want_fn(sym(a), sym(b), sym(n_))) and unparse(ife[0].value.test) == n_ and literal(ife[0].value.orelse) == neutral
             chk.ob("C12-R7", f"series.arip.{cls}.{meth}[average change]", ok,
-                   f"{ife[0].targets[0].id} = {alg.show(got)} if {unparse(ife[0].value.test)} else {unparse(ife[0].value.orelse)}", m.loc(g))
+                   f"{ife[0].targets[0].id} = {alg.show(got)} if {unparse(ife[0].value.test)} else {unparse(ife[0].value.orelse)}", m.loc(g), sure=True)
         except Undecided as ex:
             chk.undecided("C12-R7", f"series.arip.{cls}.{meth}[average change]", str(ex), m.loc(g))
         args = [unparse(x) for x in r.args]
@@ -307,7 +307,7 @@ def rule_r7(chk):
                     bad = (n, got)
                     break
             chk.ob("C12-R7", f"series.arip._CHOOSE_AGGREGATION_VECTOR[{key}]", bad is None,
-                   f"{g.name}: weights as documented for n=1..6" if bad is None else f"{g.name}({bad[0]}) = {bad[1]} (want {want[key](bad[0])})", m.loc(g))
+                   f"{g.name}: weights as documented for n=1..6" if bad is None else f"{g.name}({bad[0]}) = {bad[1]} (want {want[key](bad[0])})", m.loc(g), sure=True)
         except (fin.NotFinite, KeyError) as ex:
             chk.undecided("C12-R7", f"series.arip._CHOOSE_AGGREGATION_VECTOR[{key}]", str(ex), m.loc(g))
 
